@@ -43,7 +43,7 @@ Act(e) ==
       [] OTHER               -> FALSE
 
 FrameEq(a, b) == /\ a.k = b.k /\ a.dir = b.dir /\ a.srv = b.srv /\ a.seg = b.seg /\ a.mor = b.mor /\ a.seq = b.seq
-                 /\ a.win = b.win /\ a.nak = b.nak /\ a.tok = b.tok /\ a.at = b.at
+                 /\ a.win = b.win /\ a.nak = b.nak /\ a.tok = b.tok /\ a.at = b.at /\ a.late = b.late
 FramesEq(p, q) == Len(p) = Len(q) /\ \A i \in 1..Len(p) : FrameEq(p[i], q[i])
 
 CMatch(lc) == IF lc.st = "NONE" THEN c'.st \in {"IDLE", "COMPLETED", "ABORTED"}
@@ -65,7 +65,7 @@ Match(st) == /\ now' = st.now /\ CMatch(st.c) /\ SMatch(st.s) /\ FramesEq(net', 
 \* monitor mode: every variable is bound to the logged value
 Strip(fs) == [i \in 1..Len(fs) |-> [k |-> fs[i].k, dir |-> fs[i].dir, srv |-> fs[i].srv, seg |-> fs[i].seg,
                                     mor |-> fs[i].mor, seq |-> fs[i].seq, win |-> fs[i].win, nak |-> fs[i].nak,
-                                    tok |-> fs[i].tok, at |-> fs[i].at]]
+                                    tok |-> fs[i].tok, at |-> fs[i].at, late |-> fs[i].late]]
 CBind(lc) == IF lc.st = "NONE" THEN [CInit EXCEPT !.st = IF cOut' = <<>> THEN "IDLE" ELSE "COMPLETED"]
              ELSE [st |-> lc.st, retry |-> lc.retry, segRetry |-> lc.segRetry, init |-> lc.init, last |-> lc.last,
                    win |-> lc.win, sentAll |-> lc.sentAll, ddl |-> lc.ddl, rx |-> lc.rx, base |-> lc.base]
